@@ -5,7 +5,7 @@ PROPS = {
     "C14": [("u_chkbuild", "quick"), ("u_corefloat", "quick"), ("u_loadpkg", "quick"), ("u_genphase", "quick"), ("u_depenv", "quick"), ("u_deprec", "quick"), ("u_stagegate", "quick"), ("u_sepdiag", "quick"), ("u_exports", "quick")],
     "C20": [("u_querytxt", "quick"), ("u_lowernames", "quick"), ("u_constrname", "quick"), ("u_qindex", "quick"), ("u_normty", "quick"), ("u_calleety", "quick"), ("u_complmeth", "quick"), ("u_qderive", "quick"), ("u_ccvariants", "quick")],
     "C18": [("u_derive", "quick")],
-    "C02": [("u_gopkgs", "quick"), ("u_importname", "quick"), ("u_gotypedoc", "quick"), ("u_gotype", "quick"), ("u_envfield", "quick"), ("u_rttypes", "quick"), ("u_swbind", "quick"), ("u_dynvt", "quick"), ("u_dceblk", "quick"), ("u_dcelive", "quick"), ("u_varname", "quick"), ("u_arrset", "quick"), ("u_capt", "quick"), ("u_fieldnames", "quick"), ("u_posfields", "quick"), ("u_dynimpl", "quick"), ("u_dynorigin", "quick"), ("u_entryname", "quick"), ("u_fnshape", "quick"), ("u_imm", "quick"), ("u_dynreq", "quick"), ("u_goops", "quick"), ("u_deadfn", "quick")],
+    "C02": [("u_gopkgs", "quick"), ("u_importname", "quick"), ("u_gotypedoc", "quick"), ("u_gotype", "quick"), ("u_envfield", "quick"), ("u_rttypes", "quick"), ("u_swbind", "quick"), ("u_dynvt", "quick"), ("u_dceblk", "quick"), ("u_dcelive", "quick"), ("u_varname", "quick"), ("u_arrset", "quick"), ("u_capt", "quick"), ("u_fieldnames", "quick"), ("u_posfields", "quick"), ("u_dynimpl", "quick"), ("u_dynorigin", "quick"), ("u_entryname", "quick"), ("u_fnshape", "quick"), ("u_imm", "quick"), ("u_dynreq", "quick"), ("u_goops", "quick"), ("u_deadfn", "quick"), ("u_exprreads", "quick")],
     "C13": [("u_discover", "quick"), ("u_topo", "quick"), ("u_diagord", "quick"), ("u_link", "quick"), ("u_loadpkg", "quick"), ("u_goimports", "quick"), ("u_hirorder", "quick"), ("u_uniqenum", "quick"), ("u_branchvar", "quick")],
     "C08": [("u_capt", "quick"), ("u_closenv", "quick"), ("u_liftty", "quick"), ("u_envname", "quick"), ("u_closty", "quick"), ("u_scopestack", "quick")],
     "C03": [("u_msubst", "quick"), ("u_munify", "quick"), ("u_tmono", "quick"), ("u_patlit", "quick"), ("u_numarms", "quick"), ("u_annot", "quick"), ("u_inst", "quick"), ("u_capt", "quick"), ("u_arrset", "quick"), ("u_fieldinst", "quick"), ("u_optypes", "quick"), ("u_mcall", "quick"), ("u_validty", "quick"), ("u_selfty", "quick"), ("u_concrete", "quick"), ("u_dynvis", "quick"), ("u_localcall", "quick"), ("u_inferctrl", "quick"), ("u_tunify", "quick"), ("u_substreport", "quick"), ("u_solveloop", "quick"), ("u_normshape", "quick"), ("u_decomp", "quick"), ("u_cmfields", "quick")],
